@@ -520,15 +520,17 @@ class Visitor(
     @bypass(resolve_source)
     def visit_join(self, source: 'dsl.Join') -> None:
         if source.condition is not None:
+            # tables null-padded by an outer join nested in either side can't be filtered below that join
+            padded = self._padded(source.left) | self._padded(source.right)
             if source.kind is dsl.Join.Kind.INNER:
-                self.context.tables.filter(source.condition)
+                self.context.tables.filter(source.condition, exclude=padded)
             else:  # rows of a preserved side survive a failed condition - its factors must not filter them
                 self.context.tables.select(source.condition)
                 supplied = {
                     dsl.Join.Kind.LEFT: [source.right],
                     dsl.Join.Kind.RIGHT: [source.left],
                 }.get(source.kind, [])
-                tables = {f.origin for s in supplied for f in dsl.Column.dissect(*s.features)}
+                tables = {f.origin for s in supplied for f in dsl.Column.dissect(*s.features)} - padded
                 if isinstance(source.condition, dsl.Predicate):
                     for table, factor in source.condition.factors.items():
                         if table in tables:
